@@ -94,6 +94,10 @@ type vfc18Nodes struct {
 
 	truth   map[string][]int // lower(name)+"\x00"+args → key positions
 	enforce bool
+	// view: node idx's OWN key extraction for a command neither the generator's table nor the tool's control-key rule
+	// covers (vf_c18_nodes_test.go: every node answers COMMAND GETKEYS in its own way and checks blocks by that
+	// answer, like a real node checks them with its own command table); unknown = the node does not know the command
+	view func(idx int, cmd [][]byte) (keys [][]byte, unknown bool)
 	// one-shot fault for the next block that reaches any node:
 	//   crossslot (queue-time error + EXECABORT), execerr (error entry inside the EXEC array),
 	//   moved / ask (redirect the whole block to the next node once)
@@ -284,8 +288,12 @@ func (ns *vfc18Nodes) serve(idx int, c net.Conn) {
 			}
 			enforce := ns.enforce && !accept
 			var keys [][]byte
+			unknownCmd := false
 			if enforce {
 				keys = ns.keysOf(cmd)
+				if keys == nil && ns.view != nil {
+					keys, unknownCmd = ns.view(idx, cmd)
+				}
 			}
 			next := ns.addrs[(idx+1)%len(ns.addrs)]
 			ns.mu.Unlock()
@@ -300,20 +308,35 @@ func (ns *vfc18Nodes) serve(idx int, c net.Conn) {
 			case injected == "crossslot" && len(cur) == 2:
 				reply = "-CROSSSLOT Keys in request don't hash to the same slot\r\n"
 			default:
+				// like a cluster node (getNodeByQuery): an unknown command is an error; keys on different slots (within
+				// the command, or against the block's slot) are -CROSSSLOT whoever serves them; a slot not served here is -MOVED
+				cmdSlot, cross := -1, false
 				for _, k := range keys {
 					sl := vfc18HashSlot(k)
-					if ns.ownerIdx(sl) != idx {
-						rejected = "moved"
-						reply = fmt.Sprintf("-MOVED %d %s\r\n", sl, ns.addrs[ns.ownerIdx(sl)])
-						break
+					if cmdSlot < 0 {
+						cmdSlot = sl
+					} else if sl != cmdSlot {
+						cross = true
 					}
-					if blockSlot < 0 {
-						blockSlot = sl
-					} else if sl != blockSlot {
+				}
+				switch {
+				case unknownCmd:
+					if rejected == "" {
+						rejected = "unknown-command"
+					}
+					reply = "-ERR unknown command\r\n"
+				case cross || (cmdSlot >= 0 && blockSlot >= 0 && cmdSlot != blockSlot):
+					if rejected == "" {
 						rejected = "crossslot"
-						reply = "-CROSSSLOT Keys in request don't hash to the same slot\r\n"
-						break
 					}
+					reply = "-CROSSSLOT Keys in request don't hash to the same slot\r\n"
+				case cmdSlot >= 0 && ns.ownerIdx(cmdSlot) != idx:
+					if rejected == "" {
+						rejected = "moved"
+					}
+					reply = fmt.Sprintf("-MOVED %d %s\r\n", cmdSlot, ns.addrs[ns.ownerIdx(cmdSlot)])
+				case cmdSlot >= 0 && blockSlot < 0:
+					blockSlot = cmdSlot
 				}
 			}
 			bw.WriteString(reply)
@@ -381,7 +404,31 @@ func (ns *vfc18Nodes) close() {
 type vfc18Redis struct{ c *cluster.Cluster }
 
 func (r *vfc18Redis) Close() error                                                          { return nil }
-func (r *vfc18Redis) Do(string, ...interface{}) (interface{}, error)                        { return "OK", nil }
+// Do: reads and the tool's own bookkeeping (frontier HSET … on redis-gunyu keys) are not C18's subject and are
+// answered here; anything else is a DATA command outside a transaction and goes through the real cluster client
+// to the node doubles, which count it ("stray"): a unit must never be replayed in part or command by command
+func (r *vfc18Redis) Do(cmd string, args ...interface{}) (interface{}, error) {
+	switch strings.ToLower(cmd) {
+	case "exists", "info", "select", "command", "hget", "hgetall", "hmget", "get", "zrangebyscore", "zrange", "ping", "cluster", "type":
+		return "OK", nil
+	}
+	if len(args) > 0 {
+		k := ""
+		switch x := args[0].(type) {
+		case []byte:
+			k = string(x)
+		case string:
+			k = x
+		}
+		if strings.HasPrefix(k, "redis-gunyu") || strings.HasPrefix(k, "/redis-gunyu") {
+			return "OK", nil
+		}
+	}
+	if r.c == nil {
+		return "OK", nil
+	}
+	return r.c.Do(cmd, args...)
+}
 func (r *vfc18Redis) Send(string, ...interface{}) error                                     { return nil }
 func (r *vfc18Redis) SendAndFlush(string, ...interface{}) error                             { return nil }
 func (r *vfc18Redis) Receive() (interface{}, error)                                         { return "OK", nil }
@@ -926,6 +973,7 @@ type vfc18World struct {
 	cp                  string
 	ro                  *RedisOutput
 	clusters            map[string]*cluster.Cluster
+	nodesHook           func(cmd string, args ...interface{}) ([]string, error) // COMMAND GETKEYS of the "nodes" client (vf_c18_nodes_test.go)
 	privSeq             int
 	loopSeq, loopStalls int
 }
@@ -1239,6 +1287,13 @@ func (w *vfc18World) replayFile(t *testing.T, r *vfutil.Rand, path string) bool 
 	flag := func(k string) bool { v, _ := m[k].(bool); return v }
 	num := func(k string) int { v, _ := m[k].(float64); return int(v) }
 	switch {
+	case str("nodes_fbs") != "":
+		cmds := vfc18ParseRToks(strings.Fields(str("rcmds")))
+		for i := 0; i < 6; i++ { // the commit kind is drawn
+			w.nodesRun(r, cmds, strings.Split(str("nodes_fbs"), ","), vfc18ParseInts(str("nodes_order")), vfc18ParseInts(str("nodes_picks")))
+		}
+		s.Count("replayed_nodes_case")
+		return true
 	case str("txns") != "":
 		var txns []vfc18LoopTxn
 		for _, part := range strings.Split(str("txns"), " | ") {
@@ -1376,6 +1431,16 @@ func TestVerifC18(t *testing.T) {
 			continue
 		}
 		puts := rec.b.puts
+		nCtlPuts := map[string]int{"l": 2, "j": 3, "r": 1}[kind]
+		if len(puts[0]) < 3 || !strings.EqualFold(string(puts[0][0]), "set") || !checkpoint.IsBisyncMarkerKey(string(puts[0][1])) || len(puts) != len(cmds)+nCtlPuts {
+			q := make([]string, len(puts[0]))
+			for k2, a := range puts[0] {
+				q[k2] = vfutil.Hex(a)
+			}
+			s.Violate("unit-block-shape", fmt.Sprintf("the commit of a unit of %d commands queued %d commands, the first of them %s: not the marker SET, the business commands and the records",
+				len(cmds), len(puts), strings.Join(q, ",")), map[string]interface{}{"cmds": vfc18Toks(cmds), "rcmds": vfc18RToks(cmds), "fb": "none", "kind": kind})
+			continue
+		}
 		mv := puts[0][2]
 		var fields [][]byte
 		if kind != "r" {
@@ -1439,6 +1504,9 @@ func TestVerifC18(t *testing.T) {
 	w.rdbCases(r, vfutil.Scale(300, 6000))
 	w.realRdbCases(r, vfutil.Scale(300, 5000))
 	w.globalCases(r, vfutil.Scale(10, 100))
+	// ---- nodes that answer COMMAND GETKEYS differently / with errors; the cluster's transaction flag
+	w.nodesCases(r, vfutil.Scale(500, 20000))
+	w.flagCases(r, vfutil.Scale(200, 5000))
 
 	// ---- corpus, then generated transactions
 	for _, l := range vfutil.Corpus("C18") {
